@@ -497,6 +497,11 @@ var genericBodies = []struct {
 	{"err-empty", []byte(`{"errors":[]}`)},
 	{"err-null", []byte(`{"errors":null}`)},
 	{"deep-json", []byte(strings.Repeat("[", 20000))},
+	// bytes that are never the start of a UTF-8 sequence, in lengths around what a client might quote or cut
+	{"cont-513", bytes.Repeat([]byte{0x80}, 513)},
+	{"cont-600", bytes.Repeat([]byte{0xbf}, 600)},
+	{"cont-8192", bytes.Repeat([]byte{0x80, 0xbf}, 4096)},
+	{"rune-across-512", append(bytes.Repeat([]byte{'a'}, 510), []byte("\xe2\x82\xac\xe2\x82\xac tail")...)},
 	{"big-9k", big9k},
 	{"big-200k", big200k},
 	{"big-10m", big10m},
@@ -1240,6 +1245,25 @@ func systematic(scs []*scenario) []*caseDef {
 					e.set("Content-Type", "application/json")
 					e.fr = f
 					mk("framing-on-error", e)
+				}
+				// E: error answers that are not JSON (a proxy's HTML page, a bare text, no type at all)
+				for _, st := range []int{404, 500, 502} {
+					for _, lbl := range []string{"cont-513", "cont-600", "cont-8192", "rune-across-512", "garbage", "empty", "big-9k"} {
+						for ci, ct := range []string{"", "text/html", "text/plain; charset=utf-8"} {
+							if (st+ci+len(lbl))%2 == 1 {
+								continue // half of the product
+							}
+							e := base()
+							e.status = st
+							e.setBody(lbl, n)
+							if ct != "" {
+								e.set("Content-Type", ct)
+							} else {
+								e.set("Content-Type")
+							}
+							mk("error-nonjson", e)
+						}
+					}
 				}
 				// D: unparseable wire data
 				for _, rw := range rawWires {
